@@ -80,7 +80,7 @@ def run(res, tier, seed):
     def batch(f, *a):
         t = X.shape_tree(xr, tier)
         own.append((t, f(xr, tier, t, *a)))
-    for f in (X.route_matrix, X.request_lines, X.client_profiles, X.semantic_values, X.cors_matrix, X.range_shapes, X.form_paths, X.injected_lines, X.error_paths, X.long_values, X.histories):
+    for f in (X.route_matrix, X.request_lines, X.client_profiles, X.semantic_values, X.cors_matrix, X.range_shapes, X.form_paths, X.injected_lines, X.framing_relations, X.error_paths, X.long_values, X.histories):
         batch(f)
     batch(X.random_mix, 1500 if tier == 'quick' else 40000)
     if tier != 'quick':
